@@ -81,6 +81,11 @@ OneTransfer(S0, fl) ==
 (***************************************************************************)
 (* Macros                                                                  *)
 (***************************************************************************)
+\* the same transfer over the other end of the sending chain, with the next protocol (bases with '/' stay on v1)
+OtherEnd(e) == CHOOSE x \in EndsOf(EndChain(e)) : x # e
+NextProto(pr) == IF pr = "v1" THEN "alias" ELSE IF pr = "alias" THEN "v2" ELSE "v1"
+Twin(a) == [a EXCEPT !.e = OtherEnd(a.e), !.proto = IF a.slash THEN a.proto ELSE NextProto(a.proto), !.to = "t"]
+
 MacroOf(S0, a, kind, rl) ==
     LET k == S0.ns[a.e]  d == EndChain(Peer(a.e)) IN
     CASE kind = "relay"   -> << a, Relay("Recv", a.e, k, rl), Relay("Ack", a.e, k, rl) >>
@@ -92,8 +97,15 @@ MacroOf(S0, a, kind, rl) ==
       [] kind = "sendoff" -> << [a |-> "Params", c |-> a.c, send |-> FALSE, recv |-> TRUE], a,
                                 [a |-> "Params", c |-> a.c, send |-> TRUE, recv |-> TRUE] >>
       [] kind = "latercv" -> << a, [a |-> "Tick"], Relay("Recv", a.e, k, rl), Relay("Timeout", a.e, k, rl) >>
+      \* twins: the same denomination leaves the chain over BOTH of its ends (two protocols) and both packets fail, so that
+      \* every refund has a second escrow account holding the same denomination next to the right one
+      [] kind = "twinto"  -> << a, Twin(a), [a |-> "Tick"], Relay("Timeout", a.e, k, rl), Relay("Timeout", Twin(a).e, S0.ns[Twin(a).e], rl) >>
+      [] kind = "twinerr" -> << [a EXCEPT !.receiver = "blk"], [Twin(a) EXCEPT !.receiver = "blk"],
+                                Relay("Recv", a.e, k, rl), Relay("Recv", Twin(a).e, S0.ns[Twin(a).e], rl),
+                                Relay("Ack", a.e, k, rl), Relay("Ack", Twin(a).e, S0.ns[Twin(a).e], rl) >>
 
-Kinds == << "relay", "relay", "relay", "relay", "relay", "relay", "timeout", "timeout", "errack", "sendoff", "latercv" >>
+Kinds == << "relay", "relay", "relay", "relay", "relay", "relay", "timeout", "timeout", "errack", "sendoff", "latercv",
+            "twinto", "twinerr" >>
 
 Flavour(roll) == IF roll <= 40 THEN "ret" ELSE IF roll <= 65 THEN "fwd" ELSE "new"
 
